@@ -270,6 +270,10 @@ def run(R, tier):
     except facts.AnchorLost as e:
         R.anchor_lost("R16.8", str(e))
 
+    # ---- R16.9 histories: the status byte after any sequence of commands and events, end to end -----------------------------
+    from . import histtable as HT
+    HT.check(R, "R16.9", "status", tier, "histories of *ESE / *SRE / *STB? / *ESR? / *CLS / *OPC / *OPC? / *TST? / *RST / *WAI, failing messages, condition changes and enable writes, with the message-available flag both ways, through Node::run on the witness device: *STB? and the device state equal the IEEE 488.2 status model after every step", 100)
+
 
 def _code_of(variant):
     import json, os
